@@ -4,7 +4,7 @@ CONSTANTS
   Names <- TraceNames
   PeerSnl <- TracePeer
   NameLen <- TraceLen
-  SendMiu = 128
+  SendMiu = 248
   PopHead = FALSE
   MaxCalls = 100
   WakeCheck = TRUE
